@@ -30,6 +30,7 @@ def run(ctx, rep):
     summ = e5_locks.Summaries(facts)
     e5_locks.check_guards(facts, rep, summ, in_scope, 'sparse kernels', 5)
     e5_locks.check_stale_flow(facts, rep, in_scope, 'sparse kernels', 3)
+    e5_locks.check_union_canonical(facts, rep)
     rep.rule('E31', e31_decomp.__doc__.strip().split('\n')[0])
     e31_decomp.run(facts, rep)
     rep.rule('E17', e17_schur.__doc__.strip().split('\n')[0])
